@@ -231,7 +231,52 @@ def handleStats (req : Sexp) : Option Sexp :=
     | _, _ => some bad
   | _ => none
 
+
+def lcov? (cols rows : Sexp) : Option Stats.LCov := do
+  let cols ← strs? cols
+  let rs ← rows.asList?
+  let rs ← rs.mapM (fun r => match r with
+    | .list [.atom k, cells] => do
+      let cs ← cells.asList?
+      let cs ← cs.mapM (fun c => match c with
+        | .list [.atom l, v] => do some (l, ← ratS? v)
+        | _ => none)
+      some (k, cs)
+    | _ => none)
+  some { cols := cols, rows := rs }
+
+def grad? (x : Sexp) : Option (List (String × Rat)) := do
+  let xs ← x.asList?
+  xs.mapM (fun p => match p with
+    | .list [.atom k, v] => do some (k, ← ratS? v)
+    | _ => none)
+
+def handleDelta (req : Sexp) : Option Sexp :=
+  match req with
+  | .list [.atom "delta", syms, grad, cols, rows] =>
+    match strs? syms, grad? grad, lcov? cols rows with
+    | some syms, some g, some c =>
+      let names := Stats.deltaNames syms c.cols
+      if !syms.all (fun s => (Stats.lookupS g s).isSome) then some bad
+      -- `.loc[names]` raises KeyError when an index label is missing; cells must exist for every selected pair
+      else if !names.all (fun a => match Stats.lookupS c.rows a with
+          | some r => names.all (fun b => (Stats.lookupS r b).isSome)
+          | none => false) then some (.list [.atom "err", .atom "KeyError"])
+      else some (ratOut (Stats.deltaVar syms (fun s => (Stats.lookupS g s).getD 0) c))
+    | _, _, _ => some bad
+  | .list [.atom "cook2l", cl, cols, bl, base, m] =>
+    match strs? cl, mat? cols, strs? bl, rats? base, mat? m with
+    | some cl, some cols, some bl, some base, some m =>
+      if !rectangular cols || !square m || m.length != cols.length || base.length != cols.length
+         || cl.length != cols.length || bl.length != base.length || !cl.all (fun l => bl.contains l) then some bad
+      else some (.list ((Stats.cook2Labelled cl cols bl base m).map (fun o => match o with | some q => ratOut q | none => .atom "singular")))
+    | _, _, _, _, _ => some bad
+  | _ => none
+
 def handle (req : Sexp) : Sexp :=
+  match handleDelta req with
+  | some a => a
+  | none =>
   match handleStats req with
   | some a => a
   | none =>
